@@ -139,8 +139,13 @@ def record_success(ctx: ExecutionContext) -> None:
 
 
 def record_cancel(ctx: ExecutionContext) -> None:
-    """Record cancellation with circuit breaker (no event emitted)."""
-    if ctx.breaker is not None:
+    """Record cancellation with circuit breaker (no event emitted).
+
+    A call that has already reported its outcome is not reported a second time: a hook
+    letting KeyboardInterrupt / CancelledError escape while that outcome's breaker event
+    is announced ends the call as cancelled, but the breaker has been told already.
+    """
+    if ctx.breaker is not None and not ctx.settled:
         ctx.settled = True
         ctx.breaker.record_cancel()
 
